@@ -237,6 +237,19 @@ class Engine:
             if cs is not None and not self.spec_mode:
                 self.oblige(cs, 'union-alt', z3.Or(v.t.is_none(v.term), u.is_alt(v.t.val(v.term), alt)), f'value is None or a {t.inner.name}')
             return V(t, z3.If(v.t.is_none(v.term), t.none(), t.some(u.get(v.t.val(v.term), alt))))
+        if isinstance(v.t, TOpt) and isinstance(v.t.inner, TUnion) and t in v.t.inner.alts.values():
+            u = v.t.inner
+            alt = next(a_ for a_, at in u.alts.items() if at == t)
+            cs = getattr(self, 'cur_state', None)
+            if cs is not None and not self.spec_mode:
+                self.oblige(cs, 'union-alt', z3.And(z3.Not(v.t.is_none(v.term)), u.is_alt(v.t.val(v.term), alt)), f'value is a {t.name} (not None, not another alternative)')
+            return V(t, u.get(v.t.val(v.term), alt))
+        if isinstance(v.t, TUnion) and t in v.t.alts.values():
+            alt = next(a_ for a_, at in v.t.alts.items() if at == t)
+            cs = getattr(self, 'cur_state', None)
+            if cs is not None and not self.spec_mode:
+                self.oblige(cs, 'union-alt', v.t.is_alt(v.term, alt), f'value is a {t.name}')
+            return V(t, v.t.get(v.term, alt))
         if isinstance(v.t, TOpt) and v.t.inner == t:
             # implicit narrowing Opt[T] -> T: the value must not be None here
             cs = getattr(self, 'cur_state', None)
@@ -367,6 +380,10 @@ class Engine:
             return a, self.coerce(b, CPS, node)
         if a.t == STR and b.t == CPS:
             return self.coerce(a, CPS, node), b
+        if isinstance(a.t, TOpt) and isinstance(a.t.inner, TUnion) and b.t in a.t.inner.alts.values():
+            return a, self.coerce(self.coerce(b, a.t.inner, node), a.t, node)
+        if isinstance(b.t, TOpt) and isinstance(b.t.inner, TUnion) and a.t in b.t.inner.alts.values():
+            return self.coerce(self.coerce(a, b.t.inner, node), b.t, node), b
         if isinstance(a.t, TUnion) and not isinstance(b.t, TUnion):
             return a, self.coerce(b, a.t, node)
         if isinstance(b.t, TUnion) and not isinstance(a.t, TUnion):
